@@ -581,6 +581,15 @@ def run_job(job):
         return st
     ra = ref["attempts"][0]
     ref_failed = ra["raised"] is not None or ra["exit"] not in (None, 0)
+    if ref_failed and not base["natural"]:
+        # the generated model fails by itself (e.g. OverflowError at the tiny separations of a very fine grid):
+        # that is a natural evaluation failure too - judge it as one instead of discarding the model
+        base = copy.deepcopy(base)
+        base["natural"] = True
+        base["model"]["meta"]["natural_fault"] = {"label": "spontaneous-" + str(ra["raised"] or "exit"), "section": "unknown",
+                                                    "exc": ra["raised"]}
+        meta = base["model"]["meta"]
+        bump("spontaneously-failing-models")
     if base["natural"]:
         sc = copy.deepcopy(base)
         sc["attempts"] = [{"k": None}, {"k": None}]
